@@ -1,9 +1,12 @@
 //! vh: conformance harness binding the TLA+ specifications in /verif/specs to
 //! the real rustradio code in /repo (built with --cfg rustradio_verif).
+mod bench;
+mod blocks;
 mod common;
 mod graphs;
 mod mt;
 mod ring;
+mod userblocks;
 
 fn main() {
     let args: Vec<String> = std::env::args().collect();
@@ -12,6 +15,7 @@ fn main() {
     let code = match cmd {
         "ring-replay" => ring::cmd_replay(rest),
         "ring-trace" => ring::cmd_trace(rest),
+        "bench" => bench::cmd_bench(rest),
         "graph-run" => graphs::cmd_run(rest),
         "mtgraph-run" => graphs::cmd_mt_run(rest),
         "mt-random" => mt::cmd_random(rest),
